@@ -23,3 +23,15 @@ claim('C07', 'CBMC on real apply_low/find_function with names at fixed addresses
       'Solver-decided for all flag combinations and caller kinds: the second call outcome (runs / refused, program, index, offsets, object) equals the reference for (program, name, caller kind) alone, for every earlier call incl. refused ones; flat and one-level inherited programs.',
       'Function tables are assumed to satisfy the documented invariants (compiler side outside); frames/bytecode execution are recording stubs; cache starts empty.',
       'DESIGN.md 5/C07')
+claim('C14', 'CBMC inductive step of the real add_message / flush_message on an arbitrary valid output ring with a nondeterministic socket',
+      'Solver-decided: chunks handed to send are the oldest unsent bytes in order and never cross the wrap; indices advance by exactly what the socket accepted; LF->CRLF; appended after old data; unsent data never overwritten; only the tail of the message dropped and only when full or dead; NET_DEAD only on fatal errno. Inductive over operations.',
+      'quick tier keeps ring indices symbolic inside the wrap windows (thorough: whole 4096 ring); <=3 send calls per operation; message <=2 (3) bytes; snoop and console path cut.',
+      'DESIGN.md 5/C14')
+claim('C12', 'CBMC step contract of one real get_user_command() call on an arbitrary 3-slot connection table (hook positions the cursor)',
+      'Solver-decided for every combination of holes, flags and queued bytes: nobody eligible => nothing returned and no turn consumed; otherwise the first eligible user in cursor order is served with its oldest command, exactly its turn is consumed, CMD_IN_BUF is kept iff another complete command remains, other users are untouched. With the induction of DESIGN 5/C12 this gives one command per user per cycle and no starvation.',
+      'Uses the guarded add-only hook verif_cmd_cursor; the grant loop in backend() and command() are argued, not encoded; <=4 queued bytes per user.',
+      'DESIGN.md 5/C12')
+claim('C11', 'CBMC on the real call_heart_beat/set_heart_beat with one scripted real re-entrant action per round, case-split per (first caller, action, target)',
+      'Solver-decided against a lock-step reference scheduler: at most one call per tick, no call after disable/destruct, exactly-once when due in completed ticks, countdown/interval bookkeeping, table invariant, error switches off only the failing object, flag stops the round.',
+      'quick: 2 objects; thorough: 3 objects. One acting callback per round (incl. enable-then-disable); table growth path cut; reset/call_out part of the tick cut.',
+      'DESIGN.md 5/C11')
